@@ -318,6 +318,28 @@ def _sigidx(toks):
     return [k for k, t in enumerate(toks) if t.kind not in ("ws", "comment")]
 
 
+def rewrite_R1b(toks, log):
+    """R1 inside bodies: the element type paths `Sd::Elem`, `Sx::Elem`, `Sy::Elem`, `S::Elem`, `<Sd>::Elem` -> `T`"""
+    out = []
+    k = 0
+    while k < len(toks):
+        t = toks[k]
+        s = [k + x for x in _sigidx(toks[k:k + 6])]
+        if t.kind == "ident" and t.text in ("Sd", "Sx", "Sy", "S") and len(s) >= 3 and toks[s[1]].text == "::" and toks[s[2]].text == "Elem":
+            out.append(Tok("ident", "T", t.line))
+            log.append("R1 body type %s::Elem line %d" % (t.text, t.line))
+            k = s[2] + 1
+            continue
+        if t.kind == "punct" and t.text == "<" and len(s) >= 5 and toks[s[1]].text in ("Sd", "Sx", "Sy") and toks[s[2]].text == ">" and toks[s[3]].text == "::" and toks[s[4]].text == "Elem":
+            out.append(Tok("ident", "T", t.line))
+            log.append("R1 body type <%s>::Elem line %d" % (toks[s[1]].text, t.line))
+            k = s[4] + 1
+            continue
+        out.append(t)
+        k += 1
+    return out
+
+
 def rewrite_R3(toks, log):
     """E.unwrap_or_else(|| M!(..))  ->  E.unwrap()   for M in {unimplemented, unreachable, panic}"""
     out = []
@@ -624,6 +646,11 @@ def emit_unit(em, repo, u, type_table, log):
     for l in lets:
         em.add("    " + l, kind="R2", unit=name)
     for s in u["sections"]:
+        if s["label"].startswith("ghost at-start"):
+            for off, ln in enumerate(s["lines"]):
+                if ln.strip():
+                    em.add("    " + ln, kind="proof", unit=name, label="ghost-at-start", ufile=u["path"], uline=s["line0"] + off)
+    for s in u["sections"]:
         if s["label"].startswith("proof at-start"):
             em.add("    proof {", kind="meta", unit=name)
             for off, ln in enumerate(s["lines"]):
@@ -631,6 +658,7 @@ def emit_unit(em, repo, u, type_table, log):
             em.add("    }", kind="meta", unit=name)
     # ---- body (R3, R4) and splice (R6)
     body = list(toks[f["b_open"] + 1:f["b_close"]])
+    body = rewrite_R1b(body, log)
     body = rewrite_R3(body, log)
     body = rewrite_R4(body, log, name)
     body = splice(body, u, name)
